@@ -18,7 +18,7 @@ fn script(tag: &str) -> String {
     format!(
         r#"{{
   run: {{|frame|
-    if $frame.topic == "fail" {{ error make {{msg: "failing-on-purpose"}} }}
+    if $frame.topic == "fail" {{ error make {{msg: ($frame.meta?.msg? | default "failing-on-purpose")}} }}
     if $frame.topic != "trig" {{ return }}
     {{ans: $frame.id, tag: "{tag}"}}
   }}
@@ -114,7 +114,14 @@ fn case(srv: &mut Srv, seed: u64, res: &mut CaseResult) -> R<()> {
                 active.insert((ci, ni), false);
             }
             "fail" => {
-                srv.must_append("fail", ctx, None, None, None)?;
+                // the error text is data: short, or long and multi-byte (of varying alignment), or with quotes and newlines
+                let msg: Option<String> = match rng.below(4) {
+                    0 => None,
+                    1 => Some(format!("{}{}", "x".repeat(rng.below(4)), "é".repeat(700 + rng.below(900)))),
+                    2 => Some(format!("{}{}", "y".repeat(rng.below(3)), "日本語".repeat(300 + rng.below(500)))),
+                    _ => Some("line1\nline2 \"quoted\" \\ tab\t end".to_string()),
+                };
+                srv.must_append("fail", ctx, None, msg.map(|m| json!({"msg": m})), None)?;
                 // every handler of that context fails on it
                 for n2 in 0..4 {
                     active.insert((ci, n2), false);
